@@ -125,6 +125,15 @@ def candidates(rng, sz):
         return v
     cands.append(enum(did, [dbg("A", "tuple", "{0:?}/{1}", "?"), dbg("B", "named", "{n}={t:#?}", "#?"), variant("Plain")], generics="tydbg"))
     did += 1
+    # `default` next to a to_string: the literal is what Display shows - with its placeholder filled in, or verbatim
+    def dflt(ident, lit, interp):
+        v = variant(ident, "tuple", [field("String")], ts=lit, default=True)
+        if interp:
+            v["ph"] = [dict(f=1, spec="")]
+            v["vals"] = [['String::from("cmd")'], ['String::new()']]
+        return v
+    cands.append(enum(did, [variant("Known"), dflt("Other", "unknown command `{0}`", True)])); did += 1
+    cands.append(enum(did, [dflt("Other", "fixed text", False), variant("Known")], prefix="p:")); did += 1
     idents = ["Red", "Green", "Blue", "Cyan"]
     for k in range(sz["interp"] // 3):
         vs = [interp_variant(rng, idents[j], rng.choice(["tuple", "named"])) for j in range(3)]
